@@ -422,10 +422,10 @@ class Respondent(httping.Parsent):
             if line is None:
                 (yield None)
                 continue
-            lineParser.close()  # close generator
 
             version, status, reason = httping.parseStatusLine(line)
             if status != httping.CONTINUE:  # 100 continue (with request or ignore)
+                lineParser.close()  # close generator
                 break
 
             leaderParser = httping.parseLeader(raw=self.msg,
